@@ -31,6 +31,8 @@ import (
 var errFlowAllowed = map[string]string{
 	"cesium.(*streamWriter).Flow$1: Err":                   "ctx.Err() is the default result of a cancelled writer; an accumulated write error, when there is one, is the more specific result and replaces it",
 	"deleter.(*leaseProxy).deleteTimeRangeRemote: Resolve": "the host resolver (aspen Cluster.Node) fails only with ErrNodeNotFound, which is the value tested",
+	"channel.TryToRetrieveStringer: Exec":                  "a display helper: a channel that cannot be retrieved is printed by its key",
+	"channel.formatNameMatcher: Compile":                   "a name that is not a valid pattern is matched literally",
 	"relay.(*tapper).updateTaps: tapInto":                  "a tap that cannot be opened is logged and left out of t.taps, so the next demand update opens it again; the relay keeps serving the other nodes",
 }
 
